@@ -21,10 +21,12 @@ pub fn inverse_gamma_lr<T: MomTropFloat>(
         epsilon_tolerance.to_f64(),
     );
 
-    if res.is_nan() {
-        Err(GammaError {})
-    } else {
+    // only a finite, strictly positive value is a valid quantile: NaN, infinities, zero (p = 0 or
+    // underflow) and the small negative numbers a non-converged iteration can leave are errors
+    if res.is_finite() && res > 0.0 {
         Ok(a.from_f64(res))
+    } else {
+        Err(GammaError {})
     }
 }
 
